@@ -6,6 +6,7 @@ CONSTANTS
   Prods <- EnvProds
   KISet <- KIClassic
   EnvWhereSet <- EnvWheres
+  SibSeqSet <- SibCover
   Deviations = {"ResponseFromDocumentRoot"}
   EmitMin = 9
   EmitFrom = 9
